@@ -79,8 +79,8 @@ def run(ctx):
     runs = itertools.chain(C.explore(ctx, ctx.n(400, 6000), 12, c03.STYLES_WF, p_invalid=0.15, observe=observe, getall=True),
                            C.explore_equal_sizes(ctx, depth=3, tables=(3,), observe=observe, getall=True),
                            C.explore_boundary_sizes(ctx, observe=observe, getall=True),
-                           C.explore_equal_sizes_big(ctx, observe=observe, getall=True), C.explore_one_object(ctx, depth=5 if ctx.thorough else 4, observe=observe, getall=True),
-                           C.explore_two_objects(ctx, ctx.n(150, 3000), observe=observe, getall=True))
+                           C.explore_equal_sizes_big(ctx, observe=observe, getall=True), C.explore_one_object(ctx, depth=5 if ctx.thorough else 3, observe=observe, getall=True),   # (depth 4 in the quick tiers of C03 C04 C07)
+                           C.explore_two_objects(ctx, ctx.n(80, 3000), observe=observe, getall=True))
     for r in runs:
         ctx.case((r.desc, str(C.jsonable_hist(r.hist))), nontrivial=C.nontrivial_history(r),
                  sample=dict(start=r.desc, ops=[s["op"][0] + ":" + s["real"] for s in r.steps]), tags=C.history_tags(r))
